@@ -547,6 +547,8 @@ class Ref:
         if o == "reset":
             self.reset()
             return "ok"
+        if o == "reuse":
+            return "ok"       # handle reuse must not change any answer
         if o == "init":
             k = int(t[1])
             self.drop(k)
